@@ -78,18 +78,46 @@ RULE = ("boundary set x boundary set of binary64 bit patterns, exhaustively (sig
         "n_e one 64-bit ulp apart (sums a +- 2^(E-63), products (1+f 2^-52)(1+2^-11)), products/quotients outside "
         "the binary64 exponent range, x*y+x against x*y with |y| >= 2^52; corpus witnesses 1e17+1, f64::MAX*16, "
         "f64::MAX^2, MIN_POSITIVE^2, 2^-1076, 1+2^-63, 1-2^-64, 1/3 (coverage counters ext_* in the evidence); "
-        "non-trivial = both operands finite, non-zero, different")
+        "targeted pairs at the format ends (f64::MAX + 2^970: the binary64 overflow tie, its neighbours, 2^969, "
+        "2^971; smallest subnormal x values around 1/2: the 2^-1075 tie). OTHER ENTRY POINTS that must print the "
+        "very same observation line and are fed to the same Coq case (routes; a spread subset of the pairs each): "
+        "a = arithmetic through += -= *= /= (t = x; t += y; acc = p; acc += x; acc /= y), c = operands +0.0 / 1.0 "
+        "taken from f80::ZERO / f80::default() / f80::ONE (every boundary value against both), s = a == b with the "
+        "SAME reference on both sides of every relation (x == x, x.partial_cmp(&x); every boundary value incl. NaN), "
+        "l = every partial_cmp of the line evaluated on copies made by a loop pattern, t = the script on a freshly "
+        "spawned thread that never called f80_init, i = f80_init called again before and in the middle of the "
+        "script, and all of them together. Every case additionally evaluates internal consistency checks whose "
+        "failure replaces the line by `X <names>` (fails both Coq checks): assigning vs by-value operators bit for "
+        "bit, != is the negation of ==, the six relations through the same reference vs two objects with equal "
+        "bytes (x, y, m, p, q, s, -x), ZERO / default() / ONE have the bytes of from(0.0) / from(1.0), "
+        "partial_cmp inside filter/count, running maximum, fold minimum, max_by, sort_by over fresh copies vs the "
+        "operators on the stored values. STRAIGHT-LINE PROGRAMS (Coq constructor Trace; registers x, y and one per "
+        "step; each step records raw result, f64::from of it, and the relation code of its operand pair, the same "
+        "register twice for unary steps): family fold (p - q, s * m, x / p, y + m, -m, ((p-q)(s m) - x/p)/(y+m), "
+        "abs/min/max/round trip of those: every operator with extended-format operands on both sides), minmaxabs "
+        "(results of neg/abs/min/max as operands of arithmetic and relations), square (x at an end of the binary64 "
+        "range squared five times, scaled by y: f80 overflow to infinity, f80 denormals with exponent word 0, "
+        "underflow to zero, narrowing of such values), random programs of 5-12 steps; each program also with all "
+        "arithmetic through the assigning operators (coverage counters trace_* in the evidence). Beside debug and "
+        "release (both Coq-checked) the executor is built with fat LTO + one codegen unit and run in a process that "
+        "never calls f80_init: both must reproduce the debug observations (thorough: on 400000 more pairs, the "
+        "routes taken in turn); non-trivial = both operands finite, non-zero, different")
 TRUSTED = ["executor harness/crates/c18 (calls rlib_f80 operators/methods, prints the 10 raw bytes of each result "
            "as (sign/exponent word, significand word), f64 results as bit patterns, the six relations of a pair of "
-           "extended operands as one code lt+2le+4gt+8ge+16eq+32partial_cmp)",
+           "extended operands as one code lt+2le+4gt+8ge+16eq+32partial_cmp; interprets the straight-line programs; "
+           "its internal consistency checks compare entry points of the crate with each other and can only turn an "
+           "observation line into an `X` line that fails both Coq checks)",
            "checks/c18.py (case generator, Coq term printer; in the extended-operand group a raw that repeats an "
            "operand raw word for word is printed as a back-reference, resolved by Corr.v's OBS/pick)",
            "x87 instructions are modelled, not verified: IEEE semantics at (prec 64, emax 16384), control word "
            "0x37F (extended precision, round to nearest even); the batch lemmas compare the hardware's raw results "
            "with the model bit for bit on every run"]
-ASSUMPTIONS = ["operands of the arithmetic are images of binary64 values (as in the property) or, in the chain and in "
-               "the relations on extended operands, results of one or two operations on such images; NaN payloads "
-               "are not modelled: NaNs are compared as a class (x87 quiets signalling NaNs on load)",
+ASSUMPTIONS = ["operands of the arithmetic are images of binary64 values (as in the property) or, in the chain, in "
+               "the relations on extended operands and in the straight-line programs, results of up to about twenty "
+               "operations on such images; NaN payloads are not modelled: NaNs are compared as a class (x87 quiets "
+               "signalling NaNs on load)",
+               "Display / Debug / Show of f80 (formatting through f64::from) are not observed; build configurations "
+               "other than dev, release and release + fat LTO (opt-level s/z, i686, windows `finit`) are not built",
                "theorems are about the spec_float model; correspondence with the inline assembly is sampled"]
 
 OPS = {"all": "OAll", "add": "OAdd", "sub": "OSub", "mul": "OMul", "div": "ODiv", "neg": "ONeg", "chain": "OChain",
@@ -302,8 +330,8 @@ def boundary(tier):
     if tier != "quick":
         extra = []
         for k in [-1074, -1073, -1050, -1023, -1022, -1000, -600, -512, -256, -128, -65, -62, -54, -52, -51, -32, -12,
-                  -11, -2, -1, 1, 2, 10, 11, 12, 31, 32, 51, 52, 54, 62, 65, 100, 127, 128, 255, 256, 511, 600, 1000,
-                  1022]:
+                  -11, -2, -1, 1, 2, 10, 11, 12, 31, 32, 51, 52, 54, 62, 65, 100, 127, 128, 255, 256, 511, 600, 970, 1000,
+                  1022]:           # 2^970: f64::MAX + 2^970 is the binary64 overflow tie
             p = pow2(k)
             extra += [p, p + 1] + ([p - 1] if p > 1 else [])
         extra += [bits(v) for v in (2.0 / 3.0, 3.141592653589793, 2.718281828459045, 1e-17, 1e308, 1e-308, 123.456,
@@ -530,14 +558,14 @@ def traces(rng, tier, B):
             return rng.choice(B), rng.choice(B)
         return random_pair(rng)
 
-    for fam, steps, n in (("fold", FOLD, 40 if q else 2500), ("minmaxabs", MMA, 30 if q else 1500)):
+    for fam, steps, n in (("fold", FOLD, 40 if q else 800), ("minmaxabs", MMA, 30 if q else 600)):
         for _ in range(n):
             a, b = operands()
             out.append(trace_case(a, b, steps, fam))
-    for _ in range(40 if q else 2500):
+    for _ in range(40 if q else 800):
         a, b = square_operands(rng)
         out.append(trace_case(a, b, SQUARE, "square"))
-    for _ in range(110 if q else 6000):
+    for _ in range(110 if q else 3000):
         a, b = operands()
         out.append(trace_case(a, b, random_steps(rng), "random"))
     return out + [assign_twin(c) for c in out]
@@ -566,7 +594,7 @@ def routed(rng, pairs, B, tier):
             out.append({"op": "all", "a": hx(k), "b": hx(a), "route": "c"})
     for a in B:                                          # the same object on both sides of every relation
         out.append({"op": "all", "a": hx(a), "b": hx(a), "route": "s"})
-    for _ in range(60 if q else 3000):
+    for _ in range(60 if q else 1000):
         a = random_pair(rng)[0]
         out.append({"op": "all", "a": hx(a), "b": hx(a), "route": rng.choice(["s", "s", "sl", "st"])})
     return out
@@ -812,7 +840,7 @@ def same_obs(x, y):
 
 
 MANIFEST = {
-    "text": "Coq theorems (35 pinned; standard-library classical-real axioms through Flocq) about an executable "
+    "text": "Coq theorems (36 pinned; standard-library classical-real axioms through Flocq) about an executable "
             "spec_float model of rlib_f80 (IEEE operations at prec 64 / emax 16384, comparisons read from the x87 flags "
             "exactly as the code reads them): c18_transport_add/sub/mul/div (the executable SpecFloat operations at "
             "(64,16384) ARE Flocq's Bplus/Bminus/Bmult/Bdiv), c18_add/sub/mul/div_correct and *_correct_f80 (for operands "
@@ -831,7 +859,14 @@ MANIFEST = {
             "genuinely extended-format operands (x*y+x, x*y, x/y, x+y against their own roundings through binary64 and "
             "against each other: values one 64-bit ulp apart, beyond / below the binary64 range); on those the "
             "specification side compares the observed booleans with the exact order of the OBSERVED raw operands, and "
-            "c18_spec_check_sound states that an accepted observation is the model's relation on them.",
+            "c18_spec_check_sound states that an accepted observation is the model's relation on them. The same "
+            "observation line is also required from the other entry points of the crate (assigning operators, the "
+            "constants ZERO / ONE / default(), comparisons through one and the same reference, partial_cmp on loop "
+            "temporaries, a thread that never called f80_init, repeated f80_init), and straight-line programs of up to "
+            "about twenty steps (Coq constructor Trace, c18_spec_trace_sound: an accepted program's every step is the "
+            "model's operation on the observed operand raws) carry every operator, neg, abs, min, max and the relations "
+            "to arbitrary extended-format operands, f80 overflow and f80 denormals included. A release build with fat "
+            "LTO and a process that never calls f80_init must reproduce the debug observations.",
     "level_note": "Trusted: Coq kernel + vm_compute, classical-real axioms of the standard library (through Flocq), "
                   "the Rust executor and the Python case printer; x87 semantics are assumed to be the IEEE semantics "
                   "of the model (checked bit for bit on every sampled input, not proved).",
